@@ -95,7 +95,7 @@ func VP_C02_Corrupt() {
 	var data []byte
 	var want []vpRec
 	for r := 0; r < 3; r++ {
-		f := vpRecord("r"+vpDigit(r)+".", 1, 2, 0)
+		f := vpRecord("r"+vpDigit(r)+".", 1, vpCaseOr("readLen", 2), 0)
 		var w vpBuf
 		f.Write(&w)
 		txt := w.b
